@@ -237,7 +237,45 @@ let run_parse = function
      | PErr (LoopNotOpened, p) -> "err LoopNotOpened " ^ sz p)
   | _ -> "ERR bad parse line"
 
-let handlers : (string * (string list -> string)) list ref = ref [ ("cell", run_cell); ("bf", run_bf); ("inplace", run_inplace); ("ir", run_ir); ("bc", run_bc); ("parse", run_parse); ("bfbig", run_bfbig); ("irbig", run_irbig) ]
+
+(* bfcycle|w|maxsteps|src-hex|env : canonical run with Brent cycle detection on machine
+   configurations; a reported cycle is re-validated by the extracted [cert_ok].
+   -> done 1 <trace> | stopped 1 <trace> | fuel 1 <trace>
+    | diverges <i> <d> <nprefix> <trace of the first i+d+1 steps>   (nprefix = events before step i) *)
+let run_bfcycle = function
+  | [w; maxsteps; src; env] ->
+    let w = zs w and e = env_of env and maxsteps = int_of_string maxsteps in
+    (match ast_of_source (bytes_of_hex src) with
+     | None -> "unbalanced"
+     | Some p ->
+       let c0 = { c_ctl = p; c_kont = []; c_st = bf0 } in
+       let result = ref None in
+       let tort = ref c0 and tort_pos = ref 0 in
+       let hare = ref c0 and hare_pos = ref 0 in
+       let power = ref 1 and lam = ref 0 in
+       (try
+          while !result = None do
+            if !hare_pos >= maxsteps then result := Some (outcome_s (fun (s : bfst) -> s.io) (OutOfFuel !hare.c_st))
+            else begin
+              (match bf_step w e !hare with
+               | Final o -> result := Some (outcome_s (fun (s : bfst) -> s.io) o)
+               | Next c' ->
+                 if !power = !lam then begin tort := !hare; tort_pos := !hare_pos; power := !power * 2; lam := 0 end;
+                 hare := c'; incr hare_pos; incr lam;
+                 if cfg_equiv e !tort !hare then begin
+                   let i = !tort_pos and d = !lam - 1 in
+                   if cert_ok w e p (nat_of_int i) (nat_of_int d) then begin
+                     let npre = List.length !tort.c_st.io.trace in
+                     result := Some (Printf.sprintf "diverges %d %d %d %s" i d npre (trace_s !hare.c_st.io))
+                   end
+                 end)
+            end
+          done
+        with Stack_overflow -> result := Some "ERR stack");
+       (match !result with Some r -> r | None -> "ERR none"))
+  | _ -> "ERR bad bfcycle line"
+
+let handlers : (string * (string list -> string)) list ref = ref [ ("cell", run_cell); ("bf", run_bf); ("inplace", run_inplace); ("ir", run_ir); ("bc", run_bc); ("parse", run_parse); ("bfbig", run_bfbig); ("bfcycle", run_bfcycle); ("irbig", run_irbig) ]
 
 let () =
   (try
